@@ -532,4 +532,24 @@ def expand_new_helpers(model):
         if not new and not has_nested:
             continue
         ex.expand_function(fi)
+    # helpers whose every call site was expanded are "absorbed": their
+    # statements are now analysed in the callers, whole-package scans skip them
+    used = set()
+    for hs in ex.log.values():
+        used.update(hs)
+    absorbed = set()
+    if used:
+        remaining = set()
+        for q, fi in model.funcs.items():
+            for n in ast.walk(fi.node):
+                if isinstance(n, ast.Call):
+                    nm = getattr(n.func, "attr", None) or \
+                        getattr(n.func, "id", None)
+                    if nm in used and fi.name != nm:
+                        remaining.add(nm)
+        for q, fi in model.funcs.items():
+            if fi.name in used and fi.name not in remaining and \
+                    ex.is_new(ex._short(q)):
+                absorbed.add(q)
+    model.absorbed = absorbed
     return ex.log
